@@ -72,8 +72,36 @@ def needed(kind, w, k, l):
     return 2 * (max(kb, max(l.bit_length(), 1)) + 1)
 
 
-def boundary_lines(rng, w, size, digs, count):
+def bn_capacity_lines(rng, w, size, digs):
+    """operands and amounts exactly at the edge of the storage: shifts that land the top digit on the last / one past the last digit
+    (also for the zero operand, which has one digit but no bits), products and sums whose length is capacity - 1, capacity, capacity + 1"""
     out = []
+    top = size * w
+    for a in [0, 1, -1, 3, (1 << w) - 1, 1 << w, (1 << (w * (digs - 1))) + 1, (1 << (w * digs)) - 1, (1 << (w * (size - 1))) - 1, (1 << (w * (size - 1))),
+              (1 << (w * size)) - 1]:
+        ab = max(abs(a).bit_length(), 1)
+        for bits in sorted({top - ab - 1, top - ab, top - ab + 1, top - w, top - 1, top, top + 1, top + w, top - (ab + w - 1) // w * w,
+                            top - (ab + w - 1) // w * w + 1}):
+            if bits >= 0:
+                for al in (0, 1):
+                    out.append("bn_lsh %d %s %d" % (al, hx(a), bits))
+    for la in (1, digs - 1, digs, digs + 1, size // 2, size - 1, size):
+        for lb in (1, digs, size - la - 1, size - la, size - la + 1, size):
+            if lb >= 1:
+                a = (1 << (w * la)) - 1
+                b = (1 << (w * lb)) - 1
+                for op in ("bn_mul", "bn_mul_basic", "bn_mul_comba", "bn_mul_karat", "bn_add", "bn_sub"):
+                    out.append("%s %d %s %s" % (op, rng.below(5), hx(a), hx(-b if op == "bn_sub" else b)))
+        a = (1 << (w * la)) - 1
+        for op in ("bn_sqr", "bn_sqr_basic", "bn_sqr_comba", "bn_sqr_karat", "bn_dbl"):
+            out.append("%s %d %s" % (op, rng.below(2), hx(a)))
+    for b in (0, 1, top - w, top - 1, top, top + 1, top + w):
+        out.append("bn_set_2b %d" % b)
+    return out
+
+
+def boundary_lines(rng, w, size, digs, count):
+    out = bn_capacity_lines(rng, w, size, digs)
     for _ in range(count):
         kind = rng.choice(["win", "slw", "naf", "reg", "jsf"])
         ww = rng.choice([2, 3, 4, 5, 6, 7, 8]) if kind != "jsf" else 2
